@@ -260,7 +260,9 @@ class Tokenizer:
         if is_indented:
             import textwrap
 
-            string = textwrap.dedent(string)
+            # (textwrap takes the '\r' of an empty line of a CRLF source for text and finds no common margin)
+            crlf = "\r\n" in string and "\n" not in string.replace("\r\n", "")
+            string = textwrap.dedent(string.replace("\r\n", "\n")).replace("\n", "\r\n") if crlf else textwrap.dedent(string)
         return TokenInfo(Token.MACRO_PARAM, string, start, end, string)
 
     def _header_first(self, skipped: list[TokenInfo]) -> Iterator[TokenInfo]:
